@@ -7,9 +7,11 @@ import onlyver
 from repo_check import W, T, CI, RC
 
 def o4_versions_of_tracked_paths_kept(steps, cfg, history):
-    """C04: after any command without --force, every recorded version (current or earlier) of a path that is still tracked and was
-    not a target of remove/untrack keeps its object if it had one before (seeded change C04-5: untrack looked at the CURRENT versions
-    of the other paths only)"""
+    """C04, first sentence: "every version ever committed for a still-tracked path remains in the cache" until it is explicitly
+    removed.  After any command without --force, every recorded version (current or earlier) of a path that was tracked before the
+    command, is still tracked after it and was not named as a target of `remove` / `untrack` keeps its object if it had one before -
+    whichever other path shares that object (seeded change C04-5: untrack looked at the CURRENT versions of the other paths only).
+    Paths are followed by their entity (a moved path keeps its versions)."""
     out = []
     for st in steps:
         c = st['cmd']
@@ -17,13 +19,14 @@ def o4_versions_of_tracked_paths_kept(steps, cfg, history):
         if pre is None or post is None or st['rc'] not in (0, 1) or rc.is_force(c) or c['op'] in ('write', 'delete', 'emptydir', 'link'):
             continue
         targets = set(c.get('targets', [])) if c['op'] in ('remove', 'untrack') else set()
-        for q, r in post.recs.items():
-            if q in targets or q not in pre.recs:
+        alive = {r['entity'] for r in post.recs.values()}
+        for q, r in pre.recs.items():
+            if q in targets or r['entity'] not in alive:
                 continue
-            for d in pre.recs[q]['hist']:
-                rel = rc.rec_addr(pre.recs[q], q, d)
-                if rel in pre.cache and rel not in post.cache:
-                    out.append((f"step {st['i']} {rc.show_cmd(c)}: the object {rel} of a recorded version of the still tracked {q} was deleted",
+            for k, d in enumerate(r['hist']):
+                rel = rc.rec_addr(r, q, d)
+                if rel in pre.cache and pre.cache[rel]['bytes'] is not None and rel not in post.cache:
+                    out.append((f"step {st['i']} {rc.show_cmd(c)}: version {k} of {len(r['hist'])} of {q} (object {rel}) was deleted; {q} is still tracked and was not named",
                                 {'kind': 'version-of-tracked-path-deleted'}))
     return out
 
@@ -105,10 +108,21 @@ def force_histories(seed, n):
         if state == 'modified': h.append(W(a, Z))
         tg = rng.choice([[a], [a, b], [b, a]])
         h.append(CI(tg, force=True, no_parallel=rng.random() < 0.5) if rng.random() < 0.7 else T(tg, force=True, no_parallel=rng.random() < 0.5))
+        if len(tg) > 1: h[-1]['no_parallel'] = True          # parallel --force on targets that share an object races (see repo_harness.gen_history)
         h.append(RC([a, b], no_parallel=rng.random() < 0.5))
         h.append({'op': 'delete', 'path': b}); h.append(RC([a, b]))
         out.append((f'force-{state}-{i}', cfg, h))
     return out
+
+
+def shared_version_histories(seed, n):
+    """Contents shared between paths in current AND in earlier versions (the sharing histories of C05: duplicates, copies, three
+    paths), then remove / untrack of one sharer without --force.  Here they are judged as C04 histories: the versions of the paths
+    that stay tracked remain in the cache (o4_versions_of_tracked_paths_kept) and the Git commits made before the removal still
+    restore them (`git checkout <commit>; xvc file recheck`, restore hook with old_commits)."""
+    import c05
+    return [(f'c04-{name}', cfg, [c for c in h if not c.get('force') or c['op'] == 'recheck'])
+            for name, cfg, h in c05.sharing_histories(seed * 7 + 4, n)]
 
 
 # ------------------------------------------------------------------------------------------------
@@ -231,7 +245,7 @@ def only_version_stream(chk, col, n):
             chk.notes.append(f'{name}: {note}')
 
 
-RULE_EXTRA = (' + C04 streams: {n} restore / {nf} force histories; 6 fixed + {no} generated histories over lib/digest_prefix_table.json (a path with versions A, B, C where the digest of A begins '
+RULE_EXTRA = (' + C04 streams: {n} restore / {nf} force / {nf} shared-version histories (lib/c05.sharing_histories judged with the C04 oracles: versions of the paths that stay tracked are kept, commits made before a remove/untrack still restore them); 6 fixed + {no} generated histories over lib/digest_prefix_table.json (a path with versions A, B, C where the digest of A begins '
               'with the identifier of a hash algorithm - b3, b2, a0, hex digits themselves - or another pair of digits, and the digest of B with the characters that follow; every '
               'entry recomputed with lib/hashref.py on every run), then `remove --from-cache --only-version <prefix of one version>` typed with 0..12, 27, 28 or 64 digits, dashes at '
               'the documented positions / first only / none, lower or upper case; the model makes the selection on the STRING (driver command `removepfx`, '
@@ -245,14 +259,14 @@ def run(chk):
     n = 40 if chk.tier == 'quick' else 400
     no = 64 if chk.tier == 'quick' else 640
     col = onlyver.Collector()
-    oracles = [rc.o1_content_addressed, rc.o4_restore_versions, functools.partial(onlyver.oracle, collect=col)]
+    oracles = [rc.o1_content_addressed, rc.o4_restore_versions, functools.partial(onlyver.oracle, collect=col), o4_versions_of_tracked_paths_kept]
 
     def before_finish():
         only_version_stream(chk, col, no)
         col.tie(chk, chk.repo_ctx['model'])
         chk.extra['rule'] = chk.extra.get('rule', '') + RULE_EXTRA.format(n=n, nf=n // 2, no=no)
-    return rc.run_property(chk, 'C04', oracles, restore=RESTORE, nq=240, extra_corpus=restore_histories(chk.seed, n) + force_histories(chk.seed, n // 2),
-                           before_finish=before_finish, extra_props=['XvcRepo.Props.C04Only'])
+    return rc.run_property(chk, 'C04', oracles, restore=RESTORE, nq=240, extra_corpus=restore_histories(chk.seed, n) + force_histories(chk.seed, n // 2) + shared_version_histories(chk.seed, n // 2),
+                           before_finish=before_finish, extra_props=['XvcRepo.Props.C04Only', 'XvcRepo.Props.C04Shared'])
 
 
 def replay(chk, data):
